@@ -801,4 +801,196 @@ theorem checked_wf {o : Oracle} {l r : ImgInfo} {P' M : Dict}
   exact ⟨(Merge.wfDict_iff M).2 ⟨hnd, fun kv hm => (hvals kv hm).1⟩,
     Merge.fixedDict_of_mem M (fun kv hm => (hvals kv hm).2)⟩
 
+theorem lookup_getD_deepRw (P : Dict) (hnd : (Dict.keys P).Nodup) (Q : String → JVal → Prop) :
+    (∀ n ∈ Dict.keys (Merge.deepRwD P), Q n ((Dict.lookup (Merge.deepRwD P) n).getD .null)) ↔
+    (∀ n v, (n, v) ∈ P → Q n (Merge.deepRw v)) := by
+  rw [Merge.keys_deepRwD]
+  constructor
+  · intro h n v hm
+    have hl := Merge.lookup_of_mem P n v hnd hm
+    have := h n (Merge.mem_keys_of_lookup hl)
+    rw [Merge.lookup_deepRwD, hl] at this
+    exact this
+  · intro h n hn
+    cases hl : Dict.lookup P n with
+    | none => exact absurd hn ((Merge.lookup_none_iff P n).1 hl)
+    | some v =>
+      rw [Merge.lookup_deepRwD, hl]
+      exact h n v (Merge.mem_of_lookup P n v hl)
+
+/-- **(4) acceptance** (fresh machine, any images, any user pipeline without duplicate keys):
+    `check_pipeline_section` returns normally **iff** the step names, in the user's order, spell a
+    path of the documented automaton (`Machine.isPath`, the automaton C01 proves the source's
+    transition tables to be) **and** every step — with its magic strings rewritten — is accepted by
+    its class check (`StepAccepted`: known kind, a dictionary, `Abstract<Kind>(**step)` returns, the
+    callback's band / grid / margin test passes) **and**, when there is a validation step, the mirrored
+    test of the right/left round passes (no right disparity grid without a left one). -/
+theorem checkPipelineSection_ok_iff (o : Oracle) (fl : MachineFlags) (P : Dict) (l r : ImgInfo) (m : CState)
+    (hfresh : FreshFor fl m) (hwf : Merge.wfDict P = true) :
+    (∃ out m', checkPipelineSection o fl registry [("pipeline", .obj P)] l r m = .ok (out, m')) ↔
+      (Machine.isPath .begin (Dict.keys P) = true ∧
+       (∀ n v, (n, v) ∈ P → StepAccepted o fl registry l r n (Merge.deepRw v)) ∧
+       (Machine.hasKind .validation (Dict.keys P) = true →
+         (r.dispSource.isStr && l.dispSource.isNull) = false)) := by
+  have hmc := machineCheck_ok_iff o fl registry registry_noOptimization (Merge.deepRwD P) l r m
+  rw [lookup_getD_deepRw P (Merge.wfDict_keys_nodup P hwf), Merge.keys_deepRwD] at hmc
+  rw [← hmc, checkPipelineSection_eq o fl P l r m hfresh hwf]
+  constructor
+  · intro ⟨out, m', h⟩
+    cases hc : machineCheck o fl registry (Merge.deepRwD P) l r m with
+    | error e => simp [hc] at h
+    | ok m1 => exact ⟨m1, rfl⟩
+  · intro ⟨m', h⟩
+    exact ⟨[("pipeline", .obj m'.pipelineCfg)], m', by simp [h]⟩
+
+/-- **(3) idempotence / fix-point**: the configuration `check_pipeline_section` returned, checked
+    again (on any machine that does not carry steps over), is returned unchanged -/
+theorem checkPipelineSection_idempotent {o : Oracle} {fl : MachineFlags} {P : Dict} {l r : ImgInfo}
+    {m m' : CState} {out : Dict} (hfresh : FreshFor fl m) (hwf : Merge.wfDict P = true)
+    (h : checkPipelineSection o fl registry [("pipeline", .obj P)] l r m = .ok (out, m'))
+    (m2 : CState) (hfresh2 : FreshFor fl m2) :
+    ∃ m2', checkPipelineSection o fl registry out l r m2 = .ok (out, m2') := by
+  obtain ⟨hmach, hout⟩ := checkPipelineSection_machine hfresh hwf h
+  have hw' := Merge.wfDict_deepRwD P hwf
+  have hnd' : (Dict.keys (Merge.deepRwD P)).Nodup := Merge.wfDict_keys_nodup _ hw'
+  have hchecked := machineCheck_fresh o fl registry (Merge.deepRwD P) l r m m' hfresh hnd' hmach
+  obtain ⟨hMw, hMf⟩ := checked_wf hw' (Merge.deepRwD_idem P) hchecked
+  obtain ⟨hkeys, hsteps⟩ := hchecked
+  -- the first run was accepted: path, steps, mirrored test
+  obtain ⟨hpath, hacc, hmirror⟩ :=
+    (machineCheck_ok_iff o fl registry registry_noOptimization (Merge.deepRwD P) l r m).1 ⟨m', hmach⟩
+  subst hout
+  rw [checkPipelineSection_eq o fl m'.pipelineCfg l r m2 hfresh2 hMw, hMf]
+  -- the second run is accepted
+  have hacc2 : ∃ m2', machineCheck o fl registry m'.pipelineCfg l r m2 = .ok m2' := by
+    apply (machineCheck_ok_iff o fl registry registry_noOptimization m'.pipelineCfg l r m2).2
+    rw [hkeys]
+    refine ⟨hpath, ?_, hmirror⟩
+    intro n hn
+    obtain ⟨kind, cfg, kd, outn, hkind, hP, hkd, hc, hM⟩ := hsteps n hn
+    obtain ⟨kind', cfg', kd', out', hkind', hP', hkd', hc', hex'⟩ := hacc n hn
+    rw [hP] at hP'; simp only [Option.getD_some, JVal.obj.injEq] at hP'; subst hP'
+    rw [hkind] at hkind'; cases hkind'
+    rw [hkd] at hkd'; cases hkd'
+    rw [hc] at hc'; cases hc'
+    have hmem := Merge.mem_of_lookup _ n _ hP
+    have hcw : Merge.wfDict cfg = true := by simpa using Merge.wfDict_mem hw' hmem
+    have hcf : Merge.deepRwD cfg = cfg := by
+      have := Merge.fixedDict_mem (Merge.deepRwD_idem P) hmem
+      unfold Merge.fixedVal at this; simpa using this
+    rw [hM]
+    exact ⟨kind, outn, kd, outn, hkind, rfl, hkd, construct_idem (kindDesc_some hkd).1 hcw hcf hc, hex'⟩
+  obtain ⟨m2', hm2⟩ := hacc2
+  refine ⟨m2', ?_⟩
+  simp only [hm2]
+  -- and leaves the same `pipeline_cfg`
+  have hndM : (Dict.keys m'.pipelineCfg).Nodup := Merge.wfDict_keys_nodup _ hMw
+  obtain ⟨hkeys2, hsteps2⟩ := machineCheck_fresh o fl registry m'.pipelineCfg l r m2 m2' hfresh2 hndM hm2
+  have : m2'.pipelineCfg = m'.pipelineCfg := by
+    apply Merge.dict_ext _ _ hkeys2 (by rw [hkeys2]; exact hndM)
+    intro k
+    by_cases hk : k ∈ Dict.keys m'.pipelineCfg
+    · obtain ⟨kind2, cfg2, kd2, out2, hkind2, hP2, hkd2, hc2, hM2⟩ := hsteps2 k hk
+      obtain ⟨kind, cfg, kd, outn, hkind, hP, hkd, hc, hM⟩ := hsteps k (by rw [← hkeys]; exact hk)
+      rw [hM] at hP2; cases hP2
+      rw [hkind] at hkind2; cases hkind2
+      rw [hkd] at hkd2; cases hkd2
+      have hmem := Merge.mem_of_lookup _ k _ hP
+      have hcw : Merge.wfDict cfg = true := by simpa using Merge.wfDict_mem hw' hmem
+      have hcf : Merge.deepRwD cfg = cfg := by
+        have := Merge.fixedDict_mem (Merge.deepRwD_idem P) hmem
+        unfold Merge.fixedVal at this; simpa using this
+      rw [construct_idem (kindDesc_some hkd).1 hcw hcf hc] at hc2; cases hc2
+      rw [hM2, hM]
+    · have h1 : Dict.lookup m'.pipelineCfg k = none := (Merge.lookup_none_iff _ k).2 hk
+      have h2 : Dict.lookup m2'.pipelineCfg k = none := (Merge.lookup_none_iff _ k).2 (by rw [hkeys2]; exact hk)
+      rw [h1, h2]
+  rw [this]
+
+/-! ### 4. The other forms `get_config_pipeline` can deliver -/
+
+theorem getConfigPipeline_forms (user : Dict) :
+    getConfigPipeline user = [] ∨ ∃ p, getConfigPipeline user = [("pipeline", p)] := by
+  unfold getConfigPipeline
+  cases Dict.lookup user "pipeline" with
+  | none => exact Or.inl rfl
+  | some p => exact Or.inr ⟨p, rfl⟩
+
+theorem checkLoop_nil (o : Oracle) (fl : MachineFlags) (reg : List KindDesc) (l r : ImgInfo)
+    (st : Machine.St) (m : CState) : checkLoop o fl reg [] l r st [] m = .ok m := by
+  simp [checkLoop]
+
+/-- no `pipeline` key: the section is `{"pipeline": {}}` -/
+theorem checkPipelineSection_no_pipeline (o : Oracle) (fl : MachineFlags) (reg : List KindDesc) (l r : ImgInfo)
+    (m : CState) (hfresh : FreshFor fl m) :
+    ∃ m', checkPipelineSection o fl reg [] l r m = .ok ([("pipeline", .obj [])], m') := by
+  unfold checkPipelineSection machineCheck
+  simp only [Merge.updateConf_nil, defaultPipeline, Dict.lookup, if_true, Dict.keys, List.map_nil, checkLoop_nil]
+  have hm0 : (if fl.resetPipelineCfg = true then { m with pipelineCfg := [] } else m).pipelineCfg = [] := by
+    rcases hfresh with h0 | h0
+    · by_cases hr : fl.resetPipelineCfg = true <;> simp [hr, h0]
+    · simp [h0]
+  generalize (if fl.resetPipelineCfg = true then { m with pipelineCfg := [] } else m) = m0 at hm0
+  refine ⟨m0, ?_⟩
+  simp only [ite_self, hm0]
+  rw [Merge.updateConf_cons]
+  simp [Dict.lookup, Merge.updateVal_obj_obj, Merge.updateConf_nil, Except.map, Dict.setKey]
+
+/-- a `pipeline` that is not a dictionary is refused -/
+theorem checkPipelineSection_not_dict (o : Oracle) (fl : MachineFlags) (reg : List KindDesc) (l r : ImgInfo)
+    (m : CState) (v : JVal) (hv : v.isObj = false) :
+    checkPipelineSection o fl reg [("pipeline", v)] l r m = .error .other := by
+  unfold checkPipelineSection
+  rw [Merge.updateConf_cons, Merge.updateVal_leaf _ _ v hv]
+  have h := Merge.rewriteLeaf_isObj v
+  rw [hv] at h
+  simp only [defaultPipeline, Dict.setKey, if_true, Merge.updateConf_nil, Dict.lookup]
+  cases hr : rewriteLeaf v <;> simp [hr, JVal.isObj] at h ⊢
+
+/-! ### 5. Non-vacuity -/
+
+/-- a user pipeline with a `"NaN"` to rewrite, defaults to add and a validation step (two rounds) -/
+def userPipeline : Dict := [
+  ("matching_cost", .obj [("matching_cost_method", .str "zncc"), ("window_size", .int 7)]),
+  ("disparity", .obj [("invalid_disparity", .str "NaN"), ("disparity_method", .str "wta")]),
+  ("filter", .obj [("filter_method", .str "median")]),
+  ("validation", .obj [("validation_method", .str "cross_checking_accurate")])]
+
+/-- the hypotheses of the theorems of §3 hold of it: fresh machine, no duplicate key, accepted -/
+example :
+    FreshFor {} ({} : CState) ∧ Merge.wfDict userPipeline = true ∧
+    pipelineOf (checkPipelineSection noOracle {} registry [("pipeline", .obj userPipeline)] monoL monoR {}) =
+      some [("pipeline", .obj [
+        ("matching_cost", .obj [("matching_cost_method", .str "zncc"), ("window_size", .int 7),
+          ("subpix", .int 1), ("band", .null), ("step", .int 1)]),
+        ("disparity", .obj [("invalid_disparity", .float .nan), ("disparity_method", .str "wta")]),
+        ("filter", .obj [("filter_method", .str "median"), ("filter_size", .int 3)]),
+        ("validation", .obj [("validation_method", .str "cross_checking_accurate"),
+          ("cross_checking_threshold", .float (.num 1))])])] :=
+  ⟨Or.inl rfl, by decide, by decide⟩
+
+/-- both sides of `checkPipelineSection_ok_iff` are false of a pipeline that is not a path
+    (`filter` before `disparity`) and of a path with a refused step (`window_size` 4) -/
+example :
+    Machine.isPath .begin (Dict.keys [("matching_cost", JVal.obj [("matching_cost_method", .str "zncc")]),
+      ("filter", .obj [("filter_method", .str "median")])]) = false ∧
+    isOk (checkPipelineSection noOracle {} registry [("pipeline", .obj [
+      ("matching_cost", .obj [("matching_cost_method", .str "zncc")]),
+      ("filter", .obj [("filter_method", .str "median")])])] monoL monoR {}) = false ∧
+    isOk (checkPipelineSection noOracle {} registry [("pipeline", .obj [
+      ("matching_cost", .obj [("matching_cost_method", .str "zncc"), ("window_size", .int 4)])])]
+      monoL monoR {}) = false := by decide
+
+/-- the mirrored validation test is not redundant: a right disparity grid without a left one passes
+    the left/right round and is refused by the right/left round -/
+example :
+    let l : ImgInfo := { bands := [none], dispSource := .null }
+    let r : ImgInfo := { bands := [none], dispSource := .str "grid.tif" }
+    let P : Dict := [("matching_cost", .obj [("matching_cost_method", .str "zncc")]),
+      ("disparity", .obj [("disparity_method", .str "wta")]),
+      ("validation", .obj [("validation_method", .str "cross_checking_accurate")])]
+    Machine.hasKind .validation (Dict.keys P) = true ∧ (r.dispSource.isStr && l.dispSource.isNull) = true ∧
+    isOk (checkPipelineSection noOracle {} registry [("pipeline", .obj P)] l r {}) = false ∧
+    isOk (checkPipelineSection noOracle {} registry [("pipeline", .obj P)] l l {}) = true := by decide
+
 end Pandora.C05W
